@@ -162,6 +162,11 @@ def rule_setlen_cap(ctx, cfg, F):
                     cap_key = expr_strip_blocks(ex.of_operand(t2["args"][0]))
                     if cap_key == n_key and _pure(n_key):
                         why = "n is the with_capacity argument (%s)" % expr_str(n_expr)
+            # (a2) n is the vector's own capacity
+            if not why and n_key[0] == "call" and n_key[1] == "std::vec::Vec::capacity":
+                cb = _def_call_block(f, t["args"][1])
+                if cb is not None and (ref_place(f, f.term(cb)["args"][0]) or _root_local(f, tr, f.term(cb)["args"][0])) == V:
+                    why = "n is the vector's own capacity()"
             # (b) dominated by the true edge of n <= capacity(V)
             if not why:
                 for s in f.live_blocks():
@@ -203,6 +208,24 @@ def rule_setlen_cap(ctx, cfg, F):
                                 prev = [pb for pb in justified if _same_vec(f, justified[pb][0], V) and f.dominates(pb, b) and justified[pb][1] == E]
                                 if prev:
                                     why = "n = W + max(r,0) with r = recv(.., E - W) and E <= capacity established at %s" % f.loc(prev[-1])
+            # (c3) n = W + X where X is 0 or the return value of recv(.., E - W) taken only where it is known to be positive (`match r.cmp(&0)`, `if r > 0`)
+            if not why and n_expr[0] == "bin" and n_expr[1] == "Add":
+                for W, X in ((n_expr[2], n_expr[3]), (n_expr[3], n_expr[2])):
+                    if X[0] != "var":
+                        continue
+                    roots = tr.roots_of_operand({"k": "cp", "pl": {"l": X[1]}})
+                    rblocks = {r.block for r in roots if r.kind == "call" and r.id in ("libc::recv", "libc::read")}
+                    rest = [r for r in roots if not (r.kind == "call" and r.id in ("libc::recv", "libc::read")) and not (r.kind == "const" and r.id == 0)]
+                    if len(rblocks) != 1 or rest:
+                        continue
+                    rb = next(iter(rblocks))
+                    rlen = ex.of_operand(f.term(rb)["args"][2])
+                    if not (rlen[0] == "bin" and rlen[1] == "Sub" and expr_strip_blocks(rlen[3]) == expr_strip_blocks(W)):
+                        continue
+                    E = expr_strip_blocks(rlen[2])
+                    prev = [pb for pb in justified if _same_vec(f, justified[pb][0], V) and f.dominates(pb, b) and justified[pb][1] == E]
+                    if prev and _only_positive_use(f, tr, rb):
+                        why = "n = W + (0 or r where r > 0) with r = recv(.., E - W) and E <= capacity established at %s" % f.loc(prev[-1])
             if why:
                 justified[b] = (V, n_key)
                 R.ok("%s: set_len(%s) -- %s" % (f.path, expr_str(n_expr)[:60], why), f.loc(b), cfg)
@@ -211,6 +234,41 @@ def rule_setlen_cap(ctx, cfg, F):
                           "Vec::set_len(%s) in %s is not justified by any of the capacity arguments: the vector may expose uninitialised or out-of-bounds memory" % (expr_str(n_expr)[:80], f.path),
                           f.path, f.loc(b), config=cfg)
     R.count("set_len_sites[%s]" % cfg, n_sites)
+
+
+def _only_positive_use(f, tr, rb):
+    """every conversion of the signed count returned by the read at rb to an unsigned length sits behind an edge that says the count is positive"""
+    casts = []
+    for b in f.live_blocks():
+        for st in f.stmts(b):
+            if st["s"] == "assign" and st["rv"]["r"] == "cast" and st["rv"]["a"] and op_place(st["rv"]["a"][0]) is not None:
+                rs = tr.roots_of_operand(st["rv"]["a"][0])
+                if any(r.kind == "call" and r.block == rb for r in rs) and f.local_ty(st["lhs"]["l"]) in ("usize", "u64", "u32"):
+                    casts.append(b)
+    if not casts:
+        return False
+    for cb in casts:
+        ok = False
+        for s_ in f.live_blocks():
+            if f.term(s_)["t"] != "switch" or not f.dominates(s_, cb):
+                continue
+            for tgt in f.succ(s_):
+                if not (tgt == cb or f.dominates(tgt, cb)):
+                    continue
+                for lab in edge_label(f, s_, tgt):
+                    if lab["kind"] == "variant" and lab.get("adt") == "std::cmp::Ordering" and lab.get("variant") == "Greater":
+                        rs = tr.roots_of_place(lab["place"])
+                        cmpb = [r.block for r in rs if r.kind == "call" and r.id.endswith("::cmp")]
+                        for x in cmpb:
+                            a = f.term(x)["args"]
+                            if len(a) == 2 and any(r.kind == "call" and r.block == rb for r in tr.roots_of_operand(a[0])) and any(r.kind == "const" and r.id == 0 for r in tr.roots_of_operand(a[1])):
+                                ok = True
+                    if lab["kind"] == "cmp" and ((lab["op"] == "Gt" and lab["truth"]) or (lab["op"] == "Le" and not lab["truth"])):
+                        if any(r.kind == "call" and r.block == rb for r in tr.roots_of_operand(lab["a"])) and op_const(lab["b"]) == 0:
+                            ok = True
+        if not ok:
+            return False
+    return True
 
 
 def _pure(e):
@@ -428,3 +486,91 @@ def rule_map_guard(ctx, cfg, F):
             else:
                 R.violate("%s:map-failure-unchecked" % f.path, "the result of mmap reaches a normal return without being compared with MAP_FAILED: a failed mapping becomes a region at address -1", f.path, f.loc(mb), config=cfg)
     R.count("mmap_sites[%s]" % cfg, n)
+
+
+COPIES = {"libc::strncpy": (0, 2), "libc::memcpy": (0, 2), "libc::strcpy": (0, None), "std::ptr::copy_nonoverlapping": (1, 2), "std::intrinsics::copy_nonoverlapping": (1, 2), "std::ptr::copy": (1, 2),
+          "std::ptr::write_bytes": (0, 2)}
+
+
+def _array_dest(f, operand):
+    """N when the pointer operand was taken from a fixed-size array `[T; N]` (through as_mut_ptr / casts / reborrows), else None"""
+    import re as _re
+    l = op_local(operand)
+    for _ in range(12):
+        if l is None:
+            return None
+        m = _re.search(r"\[[^\[\];]+; (\d+)\]", f.local_ty(l))
+        if m:
+            return int(m.group(1))
+        ds = [d for d in f.defs().get(l, []) if not f.is_cleanup(d[0])]
+        if len(ds) != 1:
+            return None
+        b, si, node = ds[0]
+        if si is None:
+            if strip_generics(callee_name(node)).endswith("as_mut_ptr") or strip_generics(callee_name(node)).endswith("as_ptr"):
+                l = op_local(node["args"][0])
+                continue
+            return None
+        rv = node["rv"]
+        if rv["r"] in ("use", "cast") and op_place(rv["a"][0]) is not None:
+            l = rv["a"][0]["pl"]["l"]
+            continue
+        if rv["r"] in ("ref", "raw"):
+            pl = rv["pl"]
+            projs = [e for e in pl.get("p", []) if isinstance(e, dict) and "f" in e]
+            if projs:
+                m = _re.search(r"\[[^\[\];]+; (\d+)\]", projs[-1].get("t", ""))
+                return int(m.group(1)) if m else None
+            l = pl["l"]
+            continue
+        return None
+    return None
+
+
+def rule_copy_bound(ctx, cfg, F):
+    R = ctx.rule("COPY-BOUND", "a raw copy into a fixed-size array that lives inside a struct (sockaddr_un.sun_path) is limited by that array's own length: the count is len(array) - k, "
+                 "min(.., len(array) - k) or a constant that fits -- never just the length of the source")
+    n = 0
+    for f in sorted(F.fns.values(), key=lambda x: x.path):
+        if f.file.endswith("test.rs") or not f.path.startswith("platform::"):
+            continue
+        ex = None
+        for b, t in f.calls():
+            nm = strip_generics(callee_name(t))
+            if nm not in COPIES:
+                continue
+            di, ni = COPIES[nm]
+            ex = ex or Expr(f)
+            dst = expr_strip_blocks(ex.of_operand(t["args"][di]))
+            if dst[0] != "field" or _array_dest(f, t["args"][di]) is None:
+                continue          # not an array embedded in a local struct (heap blocks and mappings are ALLOC-/SHM- business)
+            n += 1
+            if ni is None:
+                R.violate("%s:unbounded-copy:%s" % (strip_generics(f.path), dst[-1]), "%s copies into the fixed-size field `%s` with no length limit at all" % (nm, dst[-1]), f.path, f.loc(b), config=cfg)
+                continue
+            cnt = expr_strip_blocks(ex.of_operand(t["args"][ni]))
+
+            def arr_len(e):
+                if e[0] == "call" and e[1] in ("core::slice::len", "core::array::len") and e[2] and e[2][0] == dst:
+                    return True
+                if e[0] == "un" and e[1] in ("PtrMetadata", "len") and e[2] == dst:
+                    return True
+                return False
+
+            def bounded(e):
+                if arr_len(e):
+                    return True
+                if e[0] == "bin" and e[1] in ("Sub", "SubUnchecked") and arr_len(e[2]) and e[3][0] == "const" and isinstance(e[3][1], int) and e[3][1] >= 0:
+                    return True
+                if e[0] == "field" and e[1][0] == "bin" and e[1][1] == "SubWithOverflow":
+                    return bounded(("bin", "Sub", e[1][2], e[1][3]))
+                if e[0] == "call" and (e[1] in ("std::cmp::min", "std::cmp::Ord::min") or e[1].endswith("::min")):
+                    return any(bounded(a) for a in e[2])
+                return False
+            if bounded(cnt):
+                R.ok("%s: %s into `%s` is limited by the field's own length (%s)" % (f.path, nm.split("::")[-1], dst[-1], expr_str(cnt)[:60]), f.loc(b), cfg)
+            else:
+                R.violate("%s:copy-length-not-bounded-by-destination:%s" % (strip_generics(f.path), dst[-1]),
+                          "%s copies %s elements into the fixed-size field `%s` in %s: the count does not come from the field's own length, so a longer source writes past the end of the struct" % (
+                              nm, expr_str(cnt)[:80], dst[-1], f.path), f.path, f.loc(b), config=cfg)
+    R.count("struct_array_copies[%s]" % cfg, n)
